@@ -19,12 +19,17 @@ Definition renum (i : N) (rows : list (list N)) : list (list N) :=
 Definition indexed {A} (cs : list A) : list (N * A) := combine (map N.of_nat (seq 1 (length cs))) cs.
 
 (* ---- dist ---- *)
-Definition dcase := ((bool * (N * N * N * N) * N * list N) * list (dop * dout))%type.
+(* case = (configuration, (pool id, subscriber-id table), trace over the wire alphabet) *)
+Definition dcase := ((bool * (N * N * N * N) * N * list N) * (bytes * list (N * bytes)) * list (wop * dout))%type.
 Definition mkcfg (c : bool * (N * N * N * N) * N * list N) : cfg :=
   let '(lease, g, grace, univ) := c in {| c_lease := lease; c_geo := mkgeo g; c_grace := grace; c_univ := univ |}.
+Definition mkwire (w : bytes * list (N * bytes)) : wire := {| w_pool := fst w; w_names := snd w |}.
 Definition run_dist (cs : list dcase) : list (list N) :=
-  check_all dstep daccept dout_eqb 1
-    (map (fun c : dcase => (dinit (mkcfg (fst c)), dsinit (mkcfg (fst c)), snd c)) cs).
+  concat (map (fun ic : N * dcase =>
+     let '(c, w, tr) := snd ic in
+     renum (fst ic) (check_all (wstep (mkwire w)) (waccept (mkwire w)) dout_eqb 1
+                               [(dinit (mkcfg c), dsinit (mkcfg c), tr)]))
+     (indexed cs)).
 
 (* ---- generic round-trip acceptor: remember the last battery; a restore must reproduce it ---- *)
 Section RT.
@@ -40,19 +45,19 @@ End RT.
 
 (* ---- bitmap ---- *)
 Inductive pbop := PB (o : op) | PBQ (qs : list bq) | PBRT (qs : list bq).
-Inductive pbout := PBO (o : out) | PBL (l : list out).
+Inductive pbout := PBO (o : out) | PBL (l : list bans).
 Definition pb_step (s : bstate) (o : pbop) : bstate * pbout * list N :=
   match o with
   | PB o => let '(s', r, _) := Bitmap.step s o in (s', PBO r, [])
   | PBQ qs => (s, PBL (map (b_query s) qs), [])
   | PBRT qs => let s' := b_unmarshal (b_marshal s) in (s', PBL (map (b_query s') qs), [])
   end.
-Definition pb_accept (last : option (list out)) (o : pbop) (r : pbout) : option (list out) + N :=
+Definition pb_accept (last : option (list bans)) (o : pbop) (r : pbout) : option (list bans) + N :=
   match o, r with
   | PB _, PBO _ => inl None
   | PBQ _, PBL l => inl (Some l)
   | PBRT _, PBL l => match last with
-                     | Some l0 => if list_eqb out_eqb l0 l then inl (Some l) else inr 4
+                     | Some l0 => if list_eqb bans_eqb l0 l then inl (Some l) else inr 4
                      | None => inl (Some l)
                      end
   | _, _ => inr 9
@@ -60,13 +65,13 @@ Definition pb_accept (last : option (list out)) (o : pbop) (r : pbout) : option 
 Definition pbout_eqb (a b : pbout) : bool :=
   match a, b with
   | PBO x, PBO y => out_eqb x y
-  | PBL x, PBL y => list_eqb out_eqb x y
+  | PBL x, PBL y => list_eqb bans_eqb x y
   | _, _ => false
   end.
 Definition pbcase := ((N * N * N * N) * list (pbop * pbout))%type.
 Definition run_rt_bitmap (cs : list pbcase) : list (list N) :=
   check_all pb_step pb_accept pbout_eqb 1
-    (map (fun c : pbcase => (binit (mkgeo (fst c)), @None (list out), snd c)) cs).
+    (map (fun c : pbcase => (binit (mkgeo (fst c)), @None (list bans), snd c)) cs).
 
 (* ---- epoch ---- *)
 Inductive peop := PEAlloc (h : N) | PERenew (h : N) | PERelease (h : N) | PEAdvance | PEQ (qs : list eq_) | PERT (qs : list eq_).
